@@ -234,7 +234,7 @@ PROPS = {
     "C19": rc("C19", {"quick": C("C19", "C19b", "C19c"), "thorough": C("C19", "C19b", "C19c")}, ["limits:rejected"]),
     "C20": rc("C20", {"quick": C("C20"), "thorough": C("C20")}, ["access", "access:specific-instance", "access:unknown-instance"]),
     "C21": rc("C21", {"quick": C("C21", "C21b", "C21c"), "thorough": C("C21", "C21b", "C21c")}, ["order:inserted-before-later-timestamp"]),
-    "C22": rc("C22", {"quick": C("C22", "C22b"), "thorough": C("C22", "C22b")},
+    "C22": rc("C22", {"quick": C("C22", "C22b", "C22c"), "thorough": C("C22", "C22b", "C22c")},
               ["state:rebirth", "state:unregister-while-other-writers-remain"]),
     "C23": rc("C23", {"quick": C("C23"), "thorough": C("C23")},
               ["nextinstance", "nextinstance:skips-instance-without-matching-samples", "nextinstance:none"]),
